@@ -3,6 +3,8 @@
 package mailbox
 
 import (
+	"sync"
+
 	"github.com/kercylan98/vivid"
 	"github.com/kercylan98/vivid/internal/queues"
 )
@@ -341,4 +343,58 @@ func VH_C02_resume_on_consumer() {
 	}
 	vrtAssert(h.maxInFlight == 1, "at-most-one-handler-in-flight")
 	vrtReach("resumed-on-consumer")
+}
+
+// VH_C01_mailbox_live (Engine A, preemptive + race detector): the REAL mailbox
+// with its REAL ring buffers under two senders (one of them two messages in
+// program order, kinds symbolic) and a controller that pauses and resumes.
+// Complements the BMC jobs: no summary, no fixed set of shared cells - a change
+// that adds state to the mailbox is still executed as it is. At quiescence every
+// accepted message was handled exactly once, one at a time, each sender's
+// messages in its order (within a kind), nothing handled while paused.
+func VH_C01_mailbox_live() {
+	h := &vhSeqHandler{pauseAt: -1}
+	mb := NewUnboundedMailbox(2, h)
+	h.mb = mb
+	k1, k2 := vrtBool(), vrtBool()
+	var wg sync.WaitGroup
+	wg.Add(2)
+	go func() {
+		mb.Enqueue(&vhTok{id: 0, sys: k1})
+		mb.Enqueue(&vhTok{id: 1, sys: k1})
+		wg.Done()
+	}()
+	go func() {
+		mb.Enqueue(&vhTok{id: 2, sys: k2})
+		wg.Done()
+	}()
+	if vrtParam("controller", 1) == 1 {
+		wg.Add(1)
+		go func() {
+			mb.Pause()
+			mb.Resume()
+			wg.Done()
+		}()
+	}
+	wg.Wait()
+	vrtYield()
+	vrtRaceOff()
+	vrtAssert(len(h.handled) == 3, "every-accepted-message-handled-without-later-send")
+	cnt := [3]int{}
+	p0, p1 := -1, -1
+	for i, id := range h.handled {
+		if id >= 0 && id < 3 {
+			cnt[id]++
+		}
+		if id == 0 {
+			p0 = i
+		}
+		if id == 1 {
+			p1 = i
+		}
+	}
+	vrtAssert(cnt[0] == 1 && cnt[1] == 1 && cnt[2] == 1, "no-message-handled-twice")
+	vrtAssert(p0 < p1, "per-sender-fifo")
+	vrtAssert(h.maxInFlight == 1, "at-most-one-handler-in-flight")
+	vrtReach("quiescent")
 }
